@@ -428,6 +428,8 @@ class Gen(object):
             elif k < 0.8:
                 a = r.randrange(0, n)
                 b = r.randint(a + 1, n)
+                if r.random() < 0.06:
+                    a, b = r.choice([(a, a), (n, None), (n, n + 1)])      # a slice that selects nothing
                 ix.append(['sl', a, b, None])
             elif k < 0.9:
                 ix.append(['sl', None, None, r.choice([1, 2, -1])])
